@@ -212,11 +212,51 @@ def run(ctx):
         return {"edit": name, "expect": expect, "rc": v["rc"], "warnings": len(v["warnings"]), "errors": v["errors"][:1]}
 
     res = [x for x in pmap(one, jobs) if x]
+    two_versions(ctx, home, bases[:(3 if quick else 20)], quick)
     seen = set()
     for x in res:
         if x["edit"] not in seen and len(seen) < 8:
             seen.add(x["edit"])
             ctx.sample(x)
+
+
+def two_versions(ctx, home, bases, quick):
+    """two listed previous versions, one identical to the newest model and one that differs: every verdict must name the version it is about,
+    whichever is listed first (a verdict computed for one version must not be reused for the other)"""
+    for bi, base in enumerate(bases):
+        for edit in (evo.EDITS[evo.BREAKING] + evo.EDITS[evo.PARTIAL])[:: (3 if quick else 1)]:
+            r = rng("C06tv", bi, edit.__name__)
+            newest, info = evo.apply_edit(base, edit, r)
+            if newest is None or info.get("container"):
+                continue
+            for order in (("same", "diff"), ("diff", "same")):
+                cdir = os.path.join(ctx.workdir, "cases", "tv_%d_%s_%s" % (bi, edit.__name__, order[0]))
+                shutil.rmtree(cdir, ignore_errors=True)
+                labels = {"same": "vsame", "diff": "vdiff"}
+                files = {"new/_package.yml": "namespace: %s\nversions:\n" % newest.ns + "".join("  %s: ../%s\n" % (labels[o], o) for o in order),
+                         "new/model.yml": emit.emit_defs(newest.defs, None),
+                         "same/_package.yml": "namespace: %s\n" % newest.ns, "same/model.yml": emit.emit_defs(newest.defs, None),
+                         "diff/_package.yml": "namespace: %s\n" % base.ns, "diff/model.yml": emit.emit_defs(base.defs, None)}
+                common.write_tree(cdir, files)
+                p = cli.run_cli("validate", os.path.join(cdir, "new"), home)
+                ctx.ev()
+                v = verdict(p)
+                ctx.case(("two-versions", bi, edit.__name__, order[0]))
+                ctx.count("two-versions.%s" % info["cls"])
+                what = "%s on base %d with versions listed %s" % (info["name"], bi, [labels[o] for o in order])
+                case = {"case_dir": cdir, "edit": info["name"], "stderr": cli.clean(p.stderr)[-1200:]}
+                bad = False
+                if v["panic"]:
+                    ctx.violation("panic@%s" % v["panic"], "%s: crash" % what, case); bad = True
+                elif any("[vsame]" in x for x in v["errors"] + v["warnings"]):
+                    ctx.violation("verdict-about-identical-version", "%s: a diagnostic is attributed to the version that is identical to the newest model: %s" % (
+                        what, [x for x in v["errors"] + v["warnings"] if "[vsame]" in x][:1]), case); bad = True
+                elif info["cls"] == evo.BREAKING and (v["rc"] != 1 or not any("[vdiff]" in x for x in v["errors"])):
+                    ctx.violation("breaking-accepted:two-versions:%s" % info["name"], "%s: the breaking change relative to vdiff is not reported (rc=%s)" % (what, v["rc"]), case); bad = True
+                elif info["cls"] == evo.PARTIAL and v["rc"] == 0 and not any("[vdiff]" in x for x in v["warnings"]):
+                    ctx.violation("no-warning:two-versions:%s" % info["name"], "%s: the partially compatible change relative to vdiff produced no warning" % what, case); bad = True
+                if not bad:
+                    shutil.rmtree(cdir, ignore_errors=True)
 
 
 def replay(ctx, path):
